@@ -160,6 +160,19 @@ pub fn case(t: &[u8], refs: &Refs, out: &mut Vec<Violation>) -> u64 {
 					probs.push(("route:serde(borrowed)".into(), format!("deserialisation {} vs DataUrl::new {}", de_b.is_ok(), verdict)));
 				}
 			}
+			// deserialisers that cannot lend the text: a JSON value, a reader, a string with an escape
+			{
+				let from_value = serde_json::from_value::<DataUrlBuf>(serde_json::Value::String(s.to_string()));
+				let from_reader = serde_json::from_reader::<_, DataUrlBuf>(js.as_bytes());
+				// (only where the plain JSON string has no escape of its own)
+				let escaped = if js.len() == s.len() + 2 { js.replace('/', "\\/").replace("a", "\\u0061") } else { js.clone() };
+				let from_escaped = serde_json::from_str::<DataUrlBuf>(&escaped);
+				for (n, r) in [("from_value", from_value.is_ok()), ("from_reader", from_reader.is_ok()), ("from_str with escapes", from_escaped.is_ok())] {
+					if r != verdict {
+						probs.push((format!("route:serde(owned, {n})"), format!("deserialisation {} vs DataUrl::new {}", r, verdict)));
+					}
+				}
+			}
 			if let Ok(d) = &de_owned {
 				if serde_json::to_string(d).ok().as_deref() != Some(js.as_str()) || serde_json::to_string(d.as_data_url()).ok().as_deref() != Some(js.as_str()) {
 					probs.push(("serde:serialise".into(), "serialisation differs from the JSON string of the text".into()));
